@@ -106,3 +106,6 @@ package variants
 //@     invariant !failed(w) && len(sent(cErr)) == 0 && len(sent(cWriteDone)) == 0
 //@   ensures [c19.reported] implies(failed(w), len(sent(cErr)) >= 1 && len(sent(cWriteDone)) == 0)
 //@   ensures [c12.done] implies(!failed(w) && len(sent(cErr)) == 0, len(sent(cWriteDone)) == 1)
+
+//@ # C16: fifth copy of the scanner loop – safety sweep (no panic on any line sequence)
+//@ func findReference
